@@ -711,6 +711,35 @@ impl Scenario for C19 {
             spec.aux = vec![800, 4, rng.u64()];
             return spec;
         }
+        if rng.chance(1, 70) {
+            // failing callback: the timer of one JitterRng unwinds in the middle of its timer test (or of an output
+            // call) and its owner contains that; the instance has no result, here and alone. The OTHER instances
+            // must go on as if nothing had happened (a lock held across the callback stays poisoned, a "test in
+            // progress" flag stays set ...)
+            spec.variant = "schedule".into();
+            let mut a_clock = gen_plain_clock(rng, 1_900);
+            a_clock.abort_at = Some(rng.range(1, 1_500));
+            let a_ops = if rng.chance(2, 3) { vec![Op::TestTimer] } else { vec![Op::U64, Op::TestTimer] };
+            let a = Inst { kind: Kind::Jitter, seed: None, clock: Some(a_clock), rounds: Some(rng.range(1, 3) as u8), ops: a_ops, shared_scratch: false };
+            let mut b_ops = vec![Op::TestTimer];
+            b_ops.extend((0..rng.range(1, 4)).map(|_| Op::U64));
+            let b = Inst { kind: Kind::Jitter, seed: None, clock: Some(gen_plain_clock(rng, 1_900)), rounds: Some(rng.range(1, 3) as u8), ops: b_ops, shared_scratch: false };
+            let probe = Inst { kind: Kind::Jitter, seed: None, clock: None, rounds: None, ops: vec![Op::U32], shared_scratch: false };
+            spec.logger = rng.chance(1, 4);
+            spec.threads = rng.range(1, 2) as u8;
+            spec.insts = if rng.chance(1, 3) { vec![a, b, probe] } else { vec![a, b] };
+            let mut sched: Vec<(u8, u8)> = Vec::new();
+            for _ in 0..spec.insts[0].ops.len() {
+                sched.push((0, 0));
+            }
+            for i in 1..spec.insts.len() {
+                for _ in 0..spec.insts[i].ops.len() {
+                    sched.push((i as u8, rng.below(spec.threads as u64) as u8));
+                }
+            }
+            spec.sched = sched;
+            return spec;
+        }
         if rng.chance(1, 60) {
             // failed calibration: a JitterRng over a scripted timer that FAILS its timer test, and the real-clock
             // constructor JitterRng::new() as an instance of its own (all that is compared about it is whether
@@ -726,7 +755,7 @@ impl Scenario for C19 {
             let failing = Inst {
                 kind: Kind::Jitter,
                 seed: None,
-                clock: Some(crate::seams::clock::ClockSpec { readings, tail_key: rng.u64(), fork_skews: vec![], freeze: None }),
+                clock: Some(crate::seams::clock::ClockSpec { readings, tail_key: rng.u64(), fork_skews: vec![], freeze: None, abort_at: None }),
                 rounds: None,
                 ops: vec![Op::TestTimer],
                 shared_scratch: false,
@@ -1070,7 +1099,10 @@ impl Scenario for C19 {
                 (Err(_), Err(_)) => {}
                 (a, b) => {
                     if let (Err(e), _) | (_, Err(e)) = (a, b) {
-                        if e.starts_with("SUT_PANIC") {
+                        // an operation that panics next to other instances and returns a value alone (or the other
+                        // way round) depends on them like any other difference; a panic on both sides is C14's matter
+                        let one_sided = a.is_ok() != b.is_ok();
+                        if e.starts_with("SUT_PANIC") && !one_sided {
                             return RunEnd::Discard(e.clone());
                         }
                         if e == "clock_stuck" {
@@ -1140,7 +1172,7 @@ impl Scenario for C19 {
     }
 
     fn rule(&self) -> String {
-        "Static: Send and Sync of the 19 deterministic generator types, the 3 cores, JitterRng<fn() -> u64>, evaluated at compile time by inherent-const shadowing. Dynamic, per run: 2..6 generator instances of mixed types (deterministic generators through every seeding route with zero seeds / seed_from_u64(0) over-weighted, duplicates of the same type and seed, JitterRng instances each over its own scripted clock), each with its own history of next_u32/next_u64/fill_bytes/jump/clone (JitterRng instances sometimes start with test_timer on their own clock), and 1..4 worker threads. The seeded scheduler repeatedly picks (instance, thread): ownership of the instance is MOVED to that OS thread, which performs exactly one operation and hands the baton back (never more than one runnable thread, so the interleaving replays exactly); schedule styles: round robin, uniform, bursts; thread migrations; disturbances between steps (unrelated generators created/seeded/dropped incl. the zero-seed remap and SplitMix64 expansion, block generators run across a refill, JitterRng::new() which touches the process-wide JITTER_ROUNDS cache). The interleaved run executes in its own fresh process; every instance is also run ALONE in its own fresh process, and all instances under sequential and reverse-sequential composition in one further process each; per-instance output digests must be identical in all of them. distinct_nontrivial = distinct (instance, thread) sequences with at least one interleave and one migration (plus one signature per type of the static table). Further: block generators also take part as their public CORE driven through one scratch block shared by all cores of that type (scratch family: 2..4 such cores, several blocks each, interleaved); JitterRng instances are cloned inside schedules; a disturbance clones/clone_froms/formats an unrelated JitterRng; duplicates of a JitterRng instance get a private clock 1..64 ticks ahead of / behind the original's; one JitterRng instance in three counts in steps of q; one run in ten consists of JitterRng instances only; (nested) the same operations of one JitterRng run once on their own and once each from inside a timer reading of another JitterRng's collection on the same thread. Schedules run under a logger that accepts every record one time in four; census family: one JitterRng brings the process to 2^16 - k collections (k < 40) in one bulk request, a second one then makes 45..60. The real-clock constructor JitterRng::new() also takes part as an instance whose only output is whether it succeeded (family failed_calibration: next to a scripted timer that fails its timer test); a difference there must repeat twice more in fresh processes.".into()
+        "Static: Send and Sync of the 19 deterministic generator types, the 3 cores, JitterRng<fn() -> u64>, evaluated at compile time by inherent-const shadowing. Dynamic, per run: 2..6 generator instances of mixed types (deterministic generators through every seeding route with zero seeds / seed_from_u64(0) over-weighted, duplicates of the same type and seed, JitterRng instances each over its own scripted clock), each with its own history of next_u32/next_u64/fill_bytes/jump/clone (JitterRng instances sometimes start with test_timer on their own clock), and 1..4 worker threads. The seeded scheduler repeatedly picks (instance, thread): ownership of the instance is MOVED to that OS thread, which performs exactly one operation and hands the baton back (never more than one runnable thread, so the interleaving replays exactly); schedule styles: round robin, uniform, bursts; thread migrations; disturbances between steps (unrelated generators created/seeded/dropped incl. the zero-seed remap and SplitMix64 expansion, block generators run across a refill, JitterRng::new() which touches the process-wide JITTER_ROUNDS cache). The interleaved run executes in its own fresh process; every instance is also run ALONE in its own fresh process, and all instances under sequential and reverse-sequential composition in one further process each; per-instance output digests must be identical in all of them. distinct_nontrivial = distinct (instance, thread) sequences with at least one interleave and one migration (plus one signature per type of the static table). Further: block generators also take part as their public CORE driven through one scratch block shared by all cores of that type (scratch family: 2..4 such cores, several blocks each, interleaved); JitterRng instances are cloned inside schedules; a disturbance clones/clone_froms/formats an unrelated JitterRng; duplicates of a JitterRng instance get a private clock 1..64 ticks ahead of / behind the original's; one JitterRng instance in three counts in steps of q; one run in ten consists of JitterRng instances only; (nested) the same operations of one JitterRng run once on their own and once each from inside a timer reading of another JitterRng's collection on the same thread. Schedules run under a logger that accepts every record one time in four; census family: one JitterRng brings the process to 2^16 - k collections (k < 40) in one bulk request, a second one then makes 45..60. The real-clock constructor JitterRng::new() also takes part as an instance whose only output is whether it succeeded (family failed_calibration: next to a scripted timer that fails its timer test); a difference there must repeat twice more in fresh processes. (failing_callback) the timer callback of one JitterRng unwinds at a chosen reading, its owner contains that; the other instances must go on unaffected. An operation that panics in the schedule and returns alone (or the reverse) is a difference like any other.".into()
     }
     fn assumptions(&self) -> Vec<String> {
         vec![
